@@ -26,7 +26,7 @@ KEY_FEATURES = ('codec',)
 
 
 def plan(tier, seed):
-    return C.plan_counts(tier, 16 * 4000, 16 * 60000)
+    return C.plan_counts(tier, 16 * 14000, 16 * 60000)
 
 
 def legal_c16(T):
